@@ -10,6 +10,7 @@ analysis error rather than guessing).  Nothing of the package is imported."""
 from __future__ import annotations
 
 import ast
+import copy
 from typing import Any, Callable, Dict, List, Optional, Tuple
 
 from .cfg import CFG, Node
@@ -49,11 +50,13 @@ class OpaqueWithConstants(Opaque):
 
 
 class Tok:
-    __slots__ = ("type", "value")
+    __slots__ = ("type", "value", "location", "lineno")
 
     def __init__(self, type_: str, value: Optional[str] = None):
         self.type = type_
         self.value = value if value is not None else type_
+        self.location = None
+        self.lineno = 0
 
     def __repr__(self) -> str:
         return f"Tok({self.type})"
@@ -112,6 +115,8 @@ class Run:
         self.trace: List[int] = []
         self.depth = 0
         self.iters: Dict[int, Any] = {}
+        self.real_strings = False
+        self.fetch_none_at_end = False
 
     # ---- expressions
     def ev(self, e: ast.AST) -> Any:
@@ -123,7 +128,7 @@ class Run:
             raise Unsupported(f"unbound name {e.id}")
         if isinstance(e, ast.Attribute):
             base = self.ev(e.value)
-            if isinstance(base, Tok) and e.attr in ("type", "value"):
+            if isinstance(base, Tok) and e.attr in ("type", "value", "location", "lineno"):
                 return getattr(base, e.attr)
             if isinstance(base, Obj):
                 if e.attr in base.fields:
@@ -188,7 +193,7 @@ class Run:
                 if k not in base:
                     raise PyExc("KeyError")
                 return base[k]
-            if isinstance(base, (list, tuple)) and not isinstance(e.slice, ast.Slice):
+            if isinstance(base, (list, tuple, str)) and not isinstance(e.slice, ast.Slice):
                 k = self.ev(e.slice)
                 if not isinstance(k, int):
                     raise Unsupported("index")
@@ -203,10 +208,26 @@ class Run:
         if isinstance(e, ast.Dict):
             return {self.ev(k): self.ev(v) for k, v in zip(e.keys, e.values)}
         if isinstance(e, ast.JoinedStr):
-            return "<text>"
+            if not self.real_strings:
+                return "<text>"
+            parts = []
+            for v in e.values:
+                if isinstance(v, ast.Constant):
+                    parts.append(str(v.value))
+                elif isinstance(v, ast.FormattedValue) and v.format_spec is None and v.conversion == -1:
+                    x = self.ev(v.value)
+                    if not isinstance(x, (str, int)):
+                        raise Unsupported("formatted value")
+                    parts.append(str(x))
+                else:
+                    raise Unsupported("format spec")
+            return "".join(parts)
         if isinstance(e, ast.Call):
             if self.is_fetch(e):
                 if self.pos >= len(self.script):
+                    if self.fetch_none_at_end:
+                        self.pos += 1
+                        return None
                     raise OutOfTokens()
                 t = self.script[self.pos]
                 self.pos += 1
@@ -400,6 +421,9 @@ class Run:
                 self.assign(x, y)
         elif isinstance(t, ast.Attribute):
             base = self.ev(t.value)
+            if isinstance(base, Tok) and t.attr in ("type", "value", "location", "lineno"):
+                setattr(base, t.attr, v)
+                return
             if not isinstance(base, Obj):
                 raise Unsupported(f"store {norm(t)[:40]}")
             base.fields[t.attr] = v
@@ -465,14 +489,16 @@ class Run:
                         if st.value is not None:
                             self.assign(st.target, self.ev(st.value))
                     elif isinstance(st, ast.AugAssign):
-                        cur = self.ev(ast.Name(id=st.target.id, ctx=ast.Load())) if isinstance(st.target, ast.Name) else None
-                        if cur is None and not isinstance(st.target, ast.Name):
-                            raise Unsupported("augmented store")
+                        load = copy.deepcopy(st.target)
+                        for x_ in ast.walk(load):
+                            if hasattr(x_, "ctx"):
+                                x_.ctx = ast.Load()
+                        cur = self.ev(load)
                         d = self.ev(st.value)
                         if isinstance(st.op, ast.Add):
-                            self.env[st.target.id] = cur + d
+                            self.assign(st.target, cur + d)
                         elif isinstance(st.op, ast.Sub):
-                            self.env[st.target.id] = cur - d
+                            self.assign(st.target, cur - d)
                         else:
                             raise Unsupported("augmented operator")
                     elif isinstance(st, ast.Expr):
